@@ -229,3 +229,79 @@ func verifHarness_C05_truncated(kind int, n int, cut int, inj int) {
 	}
 	verifReach("C05/T")
 }
+
+// transport with ONE transient fault: after `at` bytes a Read fails once with verifErrInjected, the next Read
+// carries on with the data (a serial line glitch, an EINTR-like hiccup); 1-byte chunks when small is set
+type verifGlitchReader struct {
+	data  []byte
+	pos   int
+	at    int
+	fired bool
+	small bool
+}
+
+func (r *verifGlitchReader) Read(p []byte) (int, error) {
+	if r.pos == r.at && !r.fired {
+		r.fired = true
+		return 0, verifErrInjected
+	}
+	if r.pos >= len(r.data) {
+		return 0, io.EOF
+	}
+	n := len(r.data) - r.pos
+	if r.pos < r.at && n > r.at-r.pos {
+		n = r.at - r.pos
+	}
+	if r.small {
+		n = 1
+	}
+	if n > len(p) {
+		n = len(p)
+	}
+	copy(p, r.data[r.pos:r.pos+n])
+	r.pos += n
+	return n, nil
+}
+
+// G: a valid frame (kind, payload n) followed by a second valid frame, with one transient transport fault after
+// `at` bytes of the first: every call returns a frame, a parse error or the transport's error - it never panics and
+// never both - in the call that runs into the fault and in the next one, and the fault is reported at most once.
+func verifHarness_C05_glitch(kind int, n int, at int, small int) {
+	wire := verifAnyFrameWire(kind, n)
+	if at > len(wire) {
+		verifReach("C05/G")
+		return
+	}
+	first := len(wire)
+	wire = append(wire, verifAnyFrameWire(1, 1)...)
+	g := &verifGlitchReader{data: wire, at: at, small: small == 1}
+	r := &Reader{ByteReader: g}
+	verifAssert(r.Initialize() == nil, "C05/G/init")
+	between := at == 0 || at == first
+	calls := 2 // the call that runs into the fault and the one after it (what follows is harness A's subject)
+	if between {
+		calls = 5 // a fault between frames: the whole stream is drained
+	}
+	faults, frames := 0, 0
+	done := false
+	for i := 0; i < calls && !done; i++ {
+		f, err := r.Read()
+		verifAssert((f == nil) != (err == nil), "C05/G/frame-xor-error")
+		switch {
+		case err == nil:
+			frames++
+		case err == io.EOF:
+			done = true
+		case verifIsReadError(err):
+		default:
+			verifAssert(err == verifErrInjected, "C05/G/transport-error-raw")
+			faults++
+		}
+	}
+	verifAssert(faults <= 1, "C05/G/fault-reported-at-most-once")
+	if between {
+		// a fault between frames costs nothing: both frames are delivered, then the stream ends
+		verifAssert(frames == 2 && faults == 1 && done, "C05/G/fault-between-frames-loses-nothing")
+	}
+	verifReach("C05/G")
+}
